@@ -1,5 +1,5 @@
 import Gallia.Lib.Proto
-import Gallia.Model.VEcu
+import Gallia.Model.VEcuHist
 open Gallia Gallia.Proto Gallia.Server Gallia.VEcu
 
 /-
@@ -20,6 +20,10 @@ open Gallia Gallia.Proto Gallia.Server Gallia.VEcu
         client: `helpers.parse_pdu(reply, parse_dynamic(request))` by the C03 model; wf: the reply decodes (C02) and
         re-encodes to itself; ready: `Server.Ready` held for the model and the state *before* the request (after the
         inactivity reset)
+    creq <session> <level|none> <none|t:seedhex> <lastActive> <start> <stop> <pduhex> <bools> <byte> <paylen> <payhex> <dtccount> <dtcs>
+        the same with `last_time_active` and the two clock reads of handle_request (`VEcu.vecuHandleSE`, every default
+        behaviour on), all in ticks of 0.25 s
+    ->  as for sreq, with ` la=<last_time_active> len=<reply length|-> ` in front of `ready=`
 -/
 
 structure St where
@@ -121,6 +125,18 @@ def doReq (s : St) (st : SrvState) (dt : Nat) (pdu : Bytes) (o : Orc) : String :
   | (ts', .crash c) =>
     s!"crash {match c with | .assertion => "assertion" | .index => "index"} {showState ts'.st} client=- wf=- ready={ready}"
 
+def doCReq (s : St) (st : SrvState) (la start stop : Nat) (pdu : Bytes) (o : Orc) : String :=
+  let st0 := if start - la > idleLimit then st.reset else st
+  let ready := bit (readyB s.assoc st0)
+  match vecuHandleSE allOn s.model ⟨st, la⟩ ⟨start, stop, pdu, o⟩ with
+  | (ts', .ok _ reply) =>
+    match reply with
+    | none => s!"ok {showState ts'.st} none client=- wf=- la={ts'.lastActive} len=- ready={ready}"
+    | some x =>
+      s!"ok {showState ts'.st} {hexOrDash x.pdu} client={showVerdict (clientVerdict x.pdu pdu)} wf={bit (replyWF x.pdu)} la={ts'.lastActive} len={replyLen x} ready={ready}"
+  | (ts', .crash c) =>
+    s!"crash {match c with | .assertion => "assertion" | .index => "index"} {showState ts'.st} client=- wf=- la={ts'.lastActive} len=- ready={ready}"
+
 def step (s : St) (line : String) : St × String :=
   match words line with
   | ["model", spec] => match parseModel spec with
@@ -132,6 +148,11 @@ def step (s : St) (line : String) : St × String :=
     match a.toNat?, parseLevel b, parseSeed c, idle.toNat?, parseHex hx, parseOrc bools byte paylen payhex dtccount dtcs with
     | some sess, some lv, some sd, some dt, some pdu, some o => (s, doReq s ⟨sess, lv, sd⟩ dt pdu o)
     | _, _, _, _, _, _ => (s, "bad-op")
+  | ["creq", a, b, c, la, start, stop, hx, bools, byte, paylen, payhex, dtccount, dtcs] =>
+    match a.toNat?, parseLevel b, parseSeed c, la.toNat?, start.toNat?, stop.toNat?, parseHex hx,
+      parseOrc bools byte paylen payhex dtccount dtcs with
+    | some sess, some lv, some sd, some la, some t0, some t1, some pdu, some o => (s, doCReq s ⟨sess, lv, sd⟩ la t0 t1 pdu o)
+    | _, _, _, _, _, _, _, _ => (s, "bad-op")
   | _ => (s, "bad-op")
 
 def main : IO Unit := loopState ({} : St) step
